@@ -311,6 +311,24 @@ func corpus() []scenario {
 			return ""
 		})),
 	}
+	// TRAILING BYTES (round 5): the byte-boundary history in small, for several last bytes of the
+	// address: X is deployed right below a filled contract X+1, reverted (the purge of X must leave the
+	// nodes of X+1 — a bound that is too wide — and must take all nodes of X — a bound that is too
+	// narrow: X is then deployed again WITHOUT storage and read at the head), the slot pair (X, X+1) of
+	// both contracts gets its entries at different blocks, and everything is reverted again.
+	tail := func(x uint64) []Step {
+		X, Y := fmt.Sprintf("%x", x), fmt.Sprintf("%x", x+1)
+		return []Step{
+			st(v, "d "+Y+" c000 sa "+Y+" sk 1 7 sk "+X+" 8 sk "+Y+" 9 n "+Y+" 1"),
+			st(v, "d "+X+" c001 sa "+X+" sk 1 5 sk "+X+" 6"),
+			rv,
+			st(v, "d "+X+" c002 n "+X+" 1"),
+			st(v, "sa "+X+" sk "+Y+" 4 sa "+Y+" sk "+X+" 0 r "+Y+" c003"),
+			st(v, "n "+Y+" 2 sa "+Y+" sk "+Y+" 1 sa 1 sk "+X+" 3"),
+			rv, rv, rv,
+			st(v, "sa "+Y+" sk 1 0 sa 2 sk "+Y+" 1"),
+		}
+	}
 	var out []scenario
 	add := func(name string, srcNew bool, dst []bool, drainOK bool, steps []Step) {
 		// the directed histories alternate between the two ways a Blockchain is built
@@ -352,6 +370,13 @@ func corpus() []scenario {
 		scenario{cfg: Config{Name: "byte-boundary/src-new", SrcNew: true, Dst: both, Univ: "ff", Seeded: true}, steps: boundary},
 		scenario{cfg: Config{Name: "byte-boundary-slots/src-new", SrcNew: true, Dst: both, Univ: "ff"}, steps: boundarySlots},
 		scenario{cfg: Config{Name: "byte-boundary-slots/src-legacy", SrcNew: false, Dst: both, Univ: "ff", Seeded: true}, steps: boundarySlots},
+		scenario{cfg: Config{Name: "trailing-byte-7f", SrcNew: true, Dst: both, Univ: "tail-17f"}, steps: tail(0x17f)},
+		scenario{cfg: Config{Name: "trailing-byte-80", SrcNew: false, Dst: both, Univ: "tail-180", Seeded: true}, steps: tail(0x180)},
+		scenario{cfg: Config{Name: "trailing-byte-fe", SrcNew: true, Dst: both, Univ: "tail-1fe", Seeded: true}, steps: tail(0x1fe)},
+		scenario{cfg: Config{Name: "trailing-byte-00", SrcNew: false, Dst: both, Univ: "tail-300"}, steps: tail(0x300)},
+		scenario{cfg: Config{Name: "trailing-byte-ff", SrcNew: true, Dst: both, Univ: "tail-3ff"}, steps: tail(0x3ff)},
+		scenario{cfg: Config{Name: "trailing-bytes-ffff", SrcNew: false, Dst: both, Univ: "tail-5ffff", Seeded: true}, steps: tail(0x5ffff)},
+		scenario{cfg: Config{Name: "trailing-bytes-00ff", SrcNew: true, Dst: both, Univ: "tail-700ff"}, steps: tail(0x700ff)},
 		scenario{cfg: Config{Name: "wide-blocks/src-legacy", SrcNew: false, Dst: both, Univ: "wide"}, steps: wide},
 		scenario{cfg: Config{Name: "wide-blocks/src-new", SrcNew: true, Dst: both, Univ: "wide", Seeded: true}, steps: wide})
 	return out
